@@ -119,7 +119,7 @@ Proof.
   intros f W. destruct W as [Ho Hl Hvl Hv Hnl Hn HL Fj Fv Fl Fn FL].
   destruct (qm_hdr_ok (qm_hdr f)) as [J1 J2].
   destruct magic_pos as [M1 [M2 [M3 [M4 [M5 _]]]]].
-  unfold qm_encode, qm_decode.
+  unfold qm_encode, qm_decode, qm_decode_with.
   eapply (goodq_bind_ne _ _ _ _ (QM_WRITE_VERSION, qm_hdr f)); [now apply goodq_header| |].
   2:{ rewrite app_length. pose proof (section_pos MAGIC_VTYP NLEN_VTYP (List.concat (map enc_vinfo (qf_vinfo f))) M1). lia. }
   cbv beta. cbn [fst snd]. change (vlt QM_REJECT_ABOVE QM_WRITE_VERSION) with false. cbv iota.
